@@ -11,37 +11,37 @@ for _p in ["C%02d" % i for i in range(1, 21)]:
     NOT_APPLICABLE.setdefault(_p, PENDING)
 CLAIMED = {
     "C02": {
-        "text": "Decides structural necessary conditions of package validity for all workbooks: every part-name template the writer can create receives, through the extracted override-rule chain or Default tables, the content type the standard assigns (24 templates); every internal relationship target resolves to a part template the writer creates (dead branches proven by never-assigned fields); the ordered id-consuming element sequence of sheet/workbook XML equals the relationship sequence of the matching rels writer in kind, guard, loop and increment; id-consuming loops iterate ordered collections; emitted child elements follow CT_Worksheet/CT_Workbook/CT_Stylesheet order; rows come from a list sorted by row number and cells from the ordered index; attributes and text reach the sink only through escaping wrappers; <t> carries xml:space under a whitespace test; sheet additions/renames are dominated by the uniqueness check. Does not decide what an independent reader decodes.",
+        "text": "Decides structural necessary conditions of package validity for all workbooks: every part-name template the writer can create receives, through the extracted override-rule chain or Default tables, the content type the standard assigns (24 templates); every internal relationship target resolves to a part template the writer creates (dead branches proven by never-assigned fields); the ordered id-consuming element sequence of sheet/workbook XML equals the relationship sequence of the matching rels writer in kind, guard, loop and increment; id-consuming loops iterate ordered collections; emitted child elements follow CT_Worksheet/CT_Workbook/CT_Stylesheet order; rows come from a list sorted by row number and cells from the ordered index; attributes and text reach the sink only through escaping wrappers; <t> carries xml:space under a whitespace test; sheet additions/renames are dominated by the uniqueness check. Does not decide what an independent reader decodes. Also decided: numbered part names are allocated only after a negative existence test of that very name (or from a counter tested that way); <sheet> ids derive from the position counter alone; apostrophe doubling of quoted sheet names is unconditional; for all 61 attribute enums the literal written for a variant is read back as that variant, and for 20 of them every literal is a value of the ECMA-376 simple type. Characters XML cannot carry are a listed finding.",
         "note": NOTE,
         "technique": "table agreement from typed HIR (part templates, rule chain, relationship targets, rId event sequences, element order) against spec tables; who-may-call; dominators",
     },
     "C06": {
-        "text": "Decides structural necessary conditions of annotation fidelity for all workbooks: hyperlink/drawing/table ids pair by an identical, ordered event sequence in the sheet and rels writers (C02.c/d); every attribute any live struct reads is written back (crate-wide symmetry, 413 attributes); every annotation element the sheet writer emits has a reader arm for the event variant it is written in; the <sheet> attributes written are the ones read and both sides walk the collection in order; sheet adds/renames pass the uniqueness check. Does not decide comment/VML re-join or active-tab arithmetic.",
+        "text": "Decides structural necessary conditions of annotation fidelity for all workbooks: hyperlink/drawing/table ids pair by an identical, ordered event sequence in the sheet and rels writers (C02.c/d); every attribute any live struct reads is written back (crate-wide symmetry, 413 attributes); every annotation element the sheet writer emits has a reader arm for the event variant it is written in; the <sheet> attributes written are the ones read and both sides walk the collection in order; sheet adds/renames pass the uniqueness check. Does not decide comment/VML re-join or active-tab arithmetic. Also decided: a sheet-kept defined name is written with a localSheetId derived from the sheet's position only; self-closing element variants and enum tables agree (shared with C04).",
         "note": NOTE,
         "technique": "rId event-sequence agreement, reader/writer name tables and dispatch tables from typed HIR; dominators",
     },
     "C03": {
-        "text": "Decides structural necessary conditions of faithful reading for all files: attribute bytes become model strings only through the central extractor with exactly one unescape and no caller unescapes again (who-may-access + taint); shared-formula children are produced by the relative-translation kernel with per-axis signed (child - anchor) offsets, never by the insert kernels; every ST_CellType value has a reader arm (t=\"d\" is a listed finding) and no reader-side value setter can clear the formula read from the same element. Does not decide agreement with an independent decoder on concrete files.",
+        "text": "Decides structural necessary conditions of faithful reading for all files: attribute bytes become model strings only through the central extractor with exactly one unescape and no caller unescapes again (who-may-access + taint); shared-formula children are produced by the relative-translation kernel with per-axis signed (child - anchor) offsets, never by the insert kernels; every ST_CellType value has a reader arm (t=\"d\" is a listed finding) and no reader-side value setter can clear the formula read from the same element. Does not decide agreement with an independent decoder on concrete files. Also decided: every value of 20 ECMA-376 simple types is accepted by the corresponding enum's from_str.",
         "note": NOTE,
         "technique": "taint / who-may-access over MIR field projections; typed-HIR dispatch tables vs ECMA ST_CellType; call-graph reachability; operand dataflow",
     },
     "C04": {
-        "text": "Decides structural necessary conditions of re-save stability for all files: exactly one escape and one unescape on the text and attribute channels (who-may-call for raw writers and BytesStart construction, wrapper sanitizers, every Event::Text consumer unescapes once, central attribute extractor unescapes once, no double unescape); for all 160+ structs with a live reader and writer every attribute read into the model is written back under the same name by the struct's writer closure (listed exceptions with reasons); every style table scans before it appends. Does not decide fixed-point equality of generations.",
+        "text": "Decides structural necessary conditions of re-save stability for all files: exactly one escape and one unescape on the text and attribute channels (who-may-call for raw writers and BytesStart construction, wrapper sanitizers, every Event::Text consumer unescapes once, central attribute extractor unescapes once, no double unescape); for all 160+ structs with a live reader and writer every attribute read into the model is written back under the same name by the struct's writer closure (listed exceptions with reasons); every style table scans before it appends. Does not decide fixed-point equality of generations. Also decided crate-wide: elements that can be written self-closing with attributes are dispatched under Event::Empty by the readers that build them (204 writer/reader pairs); enum to-string/from-string tables agree (496 variants).",
         "note": NOTE,
         "technique": "reader/writer name-table agreement from typed HIR over all structs; who-may-call / taint over the call graph; dominator rule on scan loops",
     },
     "C05": {
-        "text": "Decides structural necessary conditions of style fidelity for all style assignments: each of the 22 content-key functions reads every field of its struct (listed exceptions); each interning table compares the element type's key on both operands and the whole-style lookup uses the derived PartialEq; no run of concatenated key components contains two variable-width components or a continuable finite-set element (key unambiguity); component ids are written from and read back against the same table; apply flags are set under the presence of their own component and consulted for it. Reader/writer symmetry of the style structs is decided by the crate-wide symmetry rule (C04.b). Does not decide equality of reloaded styles.",
+        "text": "Decides structural necessary conditions of style fidelity for all style assignments: each of the 22 content-key functions reads every field of its struct (listed exceptions); each interning table compares the element type's key on both operands and the whole-style lookup uses the derived PartialEq; no run of concatenated key components contains two variable-width components or a continuable finite-set element (key unambiguity); component ids are written from and read back against the same table; apply flags are set under the presence of their own component and consulted for it. Reader/writer symmetry of the style structs is decided by the crate-wide symmetry rule (C04.b). Does not decide equality of reloaded styles. Also decided: no field's contribution to a key is conditional on other fields; no precision or slicing in key rendering; the <col> run merge compares every field the run writer emits on current (loop-carried) values; every path through the row/cell loops of the sheet writer writes the element or skips it under conditions that read every persisted field; the cell writer's emptiness test reads every Style field interning persists.",
         "note": NOTE,
         "technique": "field-coverage (E2) over MIR; key-template width classification from typed HIR format templates; same-source dataflow; control-dependence of apply flags",
     },
     "C11": {
-        "text": "Decides structural necessary conditions of lazy/eager equivalence for all access patterns: (typestate) wherever an element of the workbook's sheet list that may still be raw is passed to code touching any field that deserialisation fills (set L computed from the materialiser's reach), the use is dominated by a materialisation or control-dependent on is_deserialized(); the raw-sheet writer names the sheet part and its own relationships part from the same sheet number; the tables raw sheets index into (shared strings, cellXfs, fonts, fills, borders, style list) are never shrunk or reordered anywhere in the crate. Does not decide equality of lazily and eagerly loaded content.",
+        "text": "Decides structural necessary conditions of lazy/eager equivalence for all access patterns: (typestate) wherever an element of the workbook's sheet list that may still be raw is passed to code touching any field that deserialisation fills (set L computed from the materialiser's reach), the use is dominated by a materialisation or control-dependent on is_deserialized(); the raw-sheet writer names the sheet part and its own relationships part from the same sheet number; the tables raw sheets index into (shared strings, cellXfs, fonts, fills, borders, style list) are never shrunk or reordered anywhere in the crate. Does not decide equality of lazily and eagerly loaded content. Also decided: an is_deserialized() guard does not stand in for materialisation at a mutating use; the materialise-all loop is reached on every path; every sheet number handed to a part writer is position+1 in every pass (counter or enumerate); a raw sheet's own relationships are written once; numbered part names are fresh; no raw sheet is written after a numbered name was allocated.",
         "note": NOTE,
         "technique": "typestate by dominators/control dependence on MIR with a computed field set; same-source dataflow; who-may-mutate over the whole crate",
     },
     "C14": {
-        "text": "Decides the structure of agile encryption for all passwords and package sizes: the symbolic normal form of encrypt() (every callee opaque, random sources distinguished by call site) unifies with the MS-OFFCRYPTO dataflow template for all 17 EncryptionInfo attributes — same-source parameters, operand order of every crypt/KDF/IV call, the five block keys, HMAC over the very buffer that is stored, five pairwise distinct fresh random values with the RNG result consumed; hash-chain operand order at the three KDF sites, IV shape and 0x36 padding, segment size 4096, little-endian segment counter from 0 by 1, 8-byte length prefix of the same input. Does not decide digest or cipher values (interoperability).",
+        "text": "Decides the structure of agile encryption for all passwords and package sizes: the symbolic normal form of encrypt() (every callee opaque, random sources distinguished by call site) unifies with the MS-OFFCRYPTO dataflow template for all 17 EncryptionInfo attributes — same-source parameters, operand order of every crypt/KDF/IV call, the five block keys, HMAC over the very buffer that is stored, five pairwise distinct fresh random values with the RNG result consumed; hash-chain operand order at the three KDF sites, IV shape and 0x36 padding, segment size 4096, little-endian segment counter from 0 by 1, 8-byte length prefix of the same input. Does not decide digest or cipher values (interoperability). Also decided: the password reaches the first hash as UTF-16LE code units (encode_utf16 + to_le_bytes, followed into helpers).",
         "note": NOTE,
         "technique": "symbolic normal form (MIR) unified with a dataflow template from the standard; operand-order dataflow at hash sites; constant tables",
     },
@@ -56,7 +56,7 @@ CLAIMED = {
         "technique": "typed-HIR structural rules: affine loop-bound summary, literal tables, guard/ordering checks, enum dispatch table vs spec table",
     },
     "C12": {
-        "text": "Decides, for all histories, that a save is free of effects on the workbook: type-level inventory of interior mutability reachable from Spreadsheet; no mutable lock acquisition reachable from any function that serialises a &Spreadsheet is on an object originating in the workbook (interprocedural origin tracing through parameters and closure captures); the tables handed to the part writers are created inside the save. The residual (private copy of the loaded table when a raw sheet exists) is a listed finding. Does not decide the textual content of the package.",
+        "text": "Decides, for all histories, that a save is free of effects on the workbook: type-level inventory of interior mutability reachable from Spreadsheet; no mutable lock acquisition reachable from any function that serialises a &Spreadsheet is on an object originating in the workbook (interprocedural origin tracing through parameters and closure captures); the tables handed to the part writers are created inside the save. The residual (private copy of the loaded table when a raw sheet exists) is a listed finding. Does not decide the textual content of the package. Also decided: the table handed to the writers is never the workbook's own on any path (must-analysis on direct producers); no function outside the save graph acquires a write lock at all (clones share the Arc).",
         "note": NOTE,
         "technique": "effect/ownership analysis: interior-mutability inventory by type, lock-acquisition origin tracing over the resolved call graph (MIR)",
     },
@@ -66,27 +66,27 @@ CLAIMED = {
         "technique": "non-interference argument from effect analysis; guard live ranges and nesting from MIR drops + call-graph reachability",
     },
     "C13": {
-        "text": "Decides structural necessary conditions of all-or-nothing saving for every fault position: each save entry point (found by role) creates files only at names derived from the temporary name; fs::rename has (temp, destination) operands and is unreachable from the failure edge of any preceding fallible step; every BufWriter on the path is flushed with the result checked before the rename (interprocedural summary); no io::Result / XlsxError of an operation on a real sink is unwrapped or dropped on the save call graph; the step that writes the temp file can report failure. Does not decide crash timing or behaviour of the OS rename.",
+        "text": "Decides structural necessary conditions of all-or-nothing saving for every fault position: each save entry point (found by role) creates files only at names derived from the temporary name; fs::rename has (temp, destination) operands and is unreachable from the failure edge of any preceding fallible step; every BufWriter on the path is flushed with the result checked before the rename (interprocedural summary); no io::Result / XlsxError of an operation on a real sink is unwrapped or dropped on the save call graph; the step that writes the temp file can report failure. Does not decide crash timing or behaviour of the OS rename. Also decided: nothing but the temporary file is removed on the save path; compound-file streams are flushed with the result checked on the success path; no partial io::Write::write on a real sink.",
         "note": NOTE,
         "technique": "MIR path rules (must-pass-through, success-edge reachability), operand-order dataflow, result-discipline over the resolved call graph with interprocedural flush summaries",
     },
     "C01": {
-        "text": "Decides structural necessary conditions of the cell round trip for all cells: the writer's (kind, formula) -> t= table, extracted as a normal form of Cell::write_to, composed with the reader's t= -> setter -> constructible-kinds table, preserves every kind of the property's domain; the <v> payload of every kind is data-dependent on the value; the bool literals agree; text reaches the XML sink only through escaping wrappers (who-may-call) and every Event::Text consumer unescapes exactly once; the shared-string key covers all content fields. Does not decide f64/Unicode fidelity or equality of reloaded cell sets.",
+        "text": "Decides structural necessary conditions of the cell round trip for all cells: the writer's (kind, formula) -> t= table, extracted as a normal form of Cell::write_to, composed with the reader's t= -> setter -> constructible-kinds table, preserves every kind of the property's domain; the <v> payload of every kind is data-dependent on the value; the bool literals agree; text reaches the XML sink only through escaping wrappers (who-may-call) and every Event::Text consumer unescapes exactly once; the shared-string key covers all content fields. Does not decide f64/Unicode fidelity or equality of reloaded cell sets. Also decided: the shared-string map is keyed by the item's full content key at every lookup/registration and a new string's index is the item list's length; numbers are rendered without a float-to-integer cast; text is not trimmed on the way in or out; every struct whose root element can be written self-closing with attributes is built from Event::Empty by its readers.",
         "note": NOTE,
         "technique": "normal-form extraction of the writer (MIR) vs reader dispatch tables (typed HIR); who-may-call over the resolved call graph; field-coverage (E2)",
     },
     "C10": {
-        "text": "Decides structural necessary conditions of store coherence for all histories: every key-changing operation on the cell map is paired with both index operations under the same path condition or followed by the bulk rebuild; index orientation (as-is vs swapped) is consistent across all writers, the rebuild and every reader (symbolic normal forms of the iterator chains, name-free); the rebuild keys each cell by its own coordinate and follows every coordinate mutation of stored cells; inserters are called only from row-establishing contexts; the extent getter reads the right index. Does not decide agreement of listings at run time (needs the std-collection assumption).",
+        "text": "Decides structural necessary conditions of store coherence for all histories: every key-changing operation on the cell map is paired with both index operations under the same path condition or followed by the bulk rebuild; index orientation (as-is vs swapped) is consistent across all writers, the rebuild and every reader (symbolic normal forms of the iterator chains, name-free); the rebuild keys each cell by its own coordinate and follows every coordinate mutation of stored cells; inserters are called only from row-establishing contexts; the extent getter reads the right index. Does not decide agreement of listings at run time (needs the std-collection assumption). Also decided: every public extent getter of the store's owner derives from the store's extent function and from no other field.",
         "note": NOTE,
         "technique": "symbolic normal forms of loop-free methods incl. iterator chains and closures (MIR), event pairing under equal path conditions, post-dominance rules, who-may-call over the resolved call graph",
     },
     "C07": {
-        "text": "Decides structural necessary conditions of grid-like relocation for all edits: the extracted normal forms of the scalar insert/remove/band kernels and all sibling AdjustmentValue impls equal reference tables on every order type (finite, exhaustive); the range-removal predicate equals the per-axis reference for every API-reachable edit; type-driven fan-out coverage of every adjustment impl; retain-before-shift with the element's own band predicate; own-content moves guarded by sheet identity; axis slots not crossed; move/copy bounds dominate mutations. Does not decide equality with a reference grid after arbitrary histories.",
+        "text": "Decides structural necessary conditions of grid-like relocation for all edits: the extracted normal forms of the scalar insert/remove/band kernels and all sibling AdjustmentValue impls equal reference tables on every order type (finite, exhaustive); the range-removal predicate equals the per-axis reference for every API-reachable edit; type-driven fan-out coverage of every adjustment impl; retain-before-shift with the element's own band predicate; own-content moves guarded by sheet identity; axis slots not crossed; move/copy bounds dominate mutations. Does not decide equality with a reference grid after arbitrary histories. Also decided: a move clears the source through the full-rectangle enumerator; the cell-replacement helper assigns value and style from the incoming cell on every path; the row-settings map is re-keyed on every path after its entries were shifted.",
         "note": NOTE,
         "technique": "kernel normal-form extraction from MIR compared over order types; type-reachability fan-out coverage; dominator / control-dependence rules; operand-order dataflow",
     },
     "C08": {
-        "text": "Decides structural necessary conditions of reference preservation: shift not guarded by $ flags; per-axis scalar wiring and role agreement; one-sided Option checks; sheet-matching guard equals the reference truth table (16 rows); edited/own sheet names keep their slots along the whole call chain; every holder of sheet-qualified references is visited by the sheet-aware fan-out; existence of a #REF! path; tokenizer loop progress (termination). Does not decide that non-reference lexemes survive for all formulas.",
+        "text": "Decides structural necessary conditions of reference preservation: shift not guarded by $ flags; per-axis scalar wiring and role agreement; one-sided Option checks; sheet-matching guard equals the reference truth table (16 rows); edited/own sheet names keep their slots along the whole call chain; every holder of sheet-qualified references is visited by the sheet-aware fan-out; existence of a #REF! path; tokenizer loop progress (termination). Does not decide that non-reference lexemes survive for all formulas. Also decided: results of the coordinate parser are wired to their own axis (number from component 0/1, lock flag from 2/3) at every consumer, and the coordinate renderer puts each `$` under the lock parameter of the component it precedes (format! or push style); the plot area's formula collector reads every chart kind independently of the others.",
         "note": NOTE,
         "technique": "control-dependence and dataflow rules on MIR; boolean normal form from typed HIR vs reference truth table; type-driven fan-out coverage; loop-progress path rule",
     },
